@@ -376,3 +376,15 @@ Qed.
 (* text literals for the examples in Props/C05.v *)
 From Coq Require Import String Ascii.
 Definition txt (x : string) : str := map N_of_ascii (list_ascii_of_string x).
+
+(* ------------------------------------------------------------------ call histories *)
+(* every answer in a history on one object is the answer of the independent call on the header, and
+   `.parsed` reads the same after every call *)
+Lemma run_history_pure p ops :
+  run_history p ops = map (fun o => VList [hop_answer p o; parsed_val p]) ops.
+Proof. induction ops as [|o ops IH]; cbn; [reflexivity|]. rewrite IH. reflexivity. Qed.
+
+Lemma run_history_nth p ops i o :
+  nth_error ops i = Some o ->
+  nth_error (run_history p ops) i = Some (VList [hop_answer p o; parsed_val p]).
+Proof. intros H. rewrite run_history_pure, nth_error_map, H. reflexivity. Qed.
